@@ -816,11 +816,11 @@ impl CryptDict {
         ensures r == cryptdict_reads(p, resolve.store())
     { unimplemented!() }
 }
-/// `slice.get(0)`
+/// `slice.get(i)`
 #[verifier::external_body]
-fn hoist_first<T>(s: &[T]) -> (r: Option<&T>)
-    ensures match r { Some(x) => s@.len() > 0 && *x == s@[0], None => s@.len() == 0 }
-{ s.get(0) }
+fn hoist_get<T>(s: &[T], i: usize) -> (r: Option<&T>)
+    ensures match r { Some(x) => i < s@.len() && *x == s@[i as int], None => s@.len() <= i }
+{ s.get(i) }
 pub trait Backend {
     /// backend.rs: the newest cross-reference table and the trailer dictionary (units xrefread / xrefchain)
     spec fn xref_and_trailer(&self, start_offset: usize, st: Store) -> Result<(XRefTable, Dictionary)>;
